@@ -29,6 +29,15 @@ Fixpoint tree_inserts (c : tcatalog) (es : list tentry) : res unit tcatalog :=
 
 Definition tree_of_entries (es : list tentry) : res unit tcatalog := tree_inserts cat_new es.
 
+(* any history of catalog operations from the empty catalog (inserts and removes; what a running server's
+   configuration reloads do) *)
+Definition tree_of_history (h : list (cat_op entry_kind)) : res unit tcatalog :=
+  match cat_run cat_new h with
+  | Ok (c, _) => Ok c
+  | Err e => Err e
+  | Panic => Panic
+  end.
+
 (* the configuration the server model sees for a tree catalog *)
 Definition cfg_with_tree (cfg : config) (c : tcatalog) : config :=
   mkConfig (c_transport cfg) (c_edns_size cfg) (c_buflen cfg) (flat_of_tree c) (c_keys cfg) (c_now cfg).
